@@ -10,8 +10,10 @@
 //!     only through the guarded count-down shape with small start values (termination);
 //!   * F25: no nil-accepting pattern (other than `[]`) on a value whose type is `T | []`; variables
 //!     of such a type are only observed in the program's final step;
-//!   * F27-candidate: partial / star patterns only on unions of tuples;
-//!   * F28-candidate: a visible name is rebound only at the same union-free type.
+//!   * open finding "verdict carries the matched value's provenance": the verdict of a match on a
+//!     value with (possibly) known provenance is not consumed by the next term / step;
+//!   * F24 residual: a branch condition with several matches contains something that makes the
+//!     compiler drop complement narrowing (builtin call, real block, literal / pin test).
 //!
 //! Generated programs must pass (the generator is built to), and the shrinker only moves through
 //! programs that pass — so a shrunk counterexample never drifts into unspecified territory or into
@@ -176,7 +178,10 @@ fn guard_chain(c: &Chain, p: &Ty) -> bool {
         && matches!(&c.terms[2], Term::Match(Pat::Lit(Lit::Int(-1))))
 }
 
-struct V;
+struct V {
+    /// flow state handed to nested tuple fields
+    flow: std::cell::Cell<(bool, bool)>,
+}
 
 impl V {
     // ---------------------------------------------------------------------------------------------
@@ -193,11 +198,6 @@ impl V {
                     return Err("repeated binder compares functions".into());
                 }
                 return Ok(());
-            }
-            if let Some(old) = env.lookup(x) {
-                if old.ty != *t || t.has_union() {
-                    return Err(format!("rebinding of visible name {x} at another or a union type (F28 candidate)"));
-                }
             }
             seen.push((x.clone(), t.clone()));
             Ok(())
@@ -242,11 +242,6 @@ impl V {
                 if let Some(b) = pat_binds(pat, ty) {
                     for (x, t) in b {
                         if !seen.iter().any(|s| s.0 == x) {
-                            if let Some(old) = env.lookup(&x) {
-                                if old.ty != t || t.has_union() {
-                                    return Err(format!("rebinding of visible name {x} at another or a union type (F28 candidate)"));
-                                }
-                            }
                             seen.push((x, t));
                         }
                     }
@@ -254,9 +249,6 @@ impl V {
                 Ok(())
             }
             Pat::Part(_, pfs) => {
-                if !ty.variants().iter().all(|v| matches!(v, Ty::Tup(..))) {
-                    return Err("partial pattern on a union with a non-tuple variant (F27 candidate)".into());
-                }
                 for v in ty.variants() {
                     let Ty::Tup(_, fs) = &v else { continue };
                     for (l, p) in pfs {
@@ -284,9 +276,6 @@ impl V {
                 Ok(())
             }
             Pat::Star(_) => {
-                if !ty.variants().iter().all(|v| matches!(v, Ty::Tup(..))) {
-                    return Err("star pattern on a union with a non-tuple variant (F27 candidate)".into());
-                }
                 if ty.variants().len() != 1 {
                     return Err("star pattern on a union".into());
                 }
@@ -325,6 +314,11 @@ impl V {
         let mut all = vec![];
         pat.vars(&mut all);
         let b = binds.unwrap_or_default();
+        for (x, _) in &b {
+            if !all.contains(x) {
+                all.push(x.clone());
+            }
+        }
         for x in all {
             let t = b.iter().find(|e| e.0 == x).map(|e| e.1.clone());
             match t {
@@ -352,11 +346,37 @@ impl V {
         }
     }
 
-    fn terms(&self, env: &mut Env, tin: &Ty, terms: &[Term], tail: bool, cx: &Cx) -> R<Ty> {
+    /// does the term consume the flowing value?
+    fn uses_flow(&self, env: &Env, t: &Term, cx: &Cx) -> bool {
+        match t {
+            Term::Lit(_) | Term::Str(_) | Term::Fn { .. } | Term::Ref(..) => false,
+            Term::Match(_) | Term::Block(_) | Term::Tail(_) | Term::TailRipple => true,
+            Term::Access(Src::Ripple, _) | Term::Access(Src::Builtin(_), _) => true,
+            Term::Access(Src::Var(x), accs) => match env.lookup(x).and_then(|v| project(&v.ty, accs, x).ok()) {
+                Some(Ty::Fn(p, _)) => !p.is_nil(),
+                _ => false,
+            },
+            Term::Access(Src::Param, accs) => match cx.param.as_ref().and_then(|p| project(p, accs, "$").ok()) {
+                Some(Ty::Fn(p, _)) => !p.is_nil(),
+                _ => false,
+            },
+            Term::Tuple(_, fs) => fs.iter().any(|f| match f {
+                Field::Val(_, c) => c.terms.first().map(|t| self.uses_flow(env, t, cx)).unwrap_or(true),
+                Field::Spread(None) => true,
+                Field::Spread(Some(_)) => false,
+            }),
+        }
+    }
+
+    /// Flow state: `.0` = the flow is the verdict of a match that has just run, `.1` = the compiler
+    /// may attach the provenance of a variable / parameter to the flow. Open finding "verdict
+    /// carries the matched value's provenance": a verdict with provenance must not be consumed.
+    fn terms(&self, env: &mut Env, tin: &Ty, terms: &[Term], tail: bool, cx: &Cx, fs: (bool, bool)) -> R<(Ty, (bool, bool))> {
         if terms.is_empty() {
             return Err("empty chain".into());
         }
         let mut cur = tin.clone();
+        let (mut after_match, mut prov) = fs;
         for (i, t) in terms.iter().enumerate() {
             if i > 0 {
                 env.kill_pending();
@@ -367,10 +387,26 @@ impl V {
                     return Err("`#T` directly before a block prints ambiguously".into());
                 }
             }
+            if after_match && prov && self.uses_flow(env, t, cx) {
+                return Err("a match verdict that carries provenance is consumed (open finding: verdict provenance)".into());
+            }
             let is_last = i + 1 == terms.len();
+            self.flow.set((after_match, prov));
             cur = self.term(env, &cur, terms, i, tail && is_last, cx)?;
+            match t {
+                Term::Match(_) => after_match = true,
+                _ => {
+                    after_match = false;
+                    prov = match t {
+                        Term::Access(Src::Ripple, _) => prov,
+                        Term::Access(Src::Var(_), _) | Term::Access(Src::Param, _) => !self.uses_flow(env, t, cx),
+                        Term::Ref(..) | Term::Tuple(..) => true,
+                        _ => false,
+                    };
+                }
+            }
         }
-        Ok(cur)
+        Ok((cur, (after_match, prov)))
     }
 
     fn term(&self, env: &mut Env, tin: &Ty, terms: &[Term], i: usize, tail: bool, cx: &Cx) -> R<Ty> {
@@ -381,13 +417,14 @@ impl V {
             Term::Str(_) => Ok(Ty::str_()),
             Term::Tuple(name, fields) => {
                 let mut ftys = vec![];
+                let fs = self.flow.get();
                 for f in fields {
                     let Field::Val(l, c) = f else { return Err("spread".into()) };
                     if c.pat.is_some() {
                         return Err("binding chain inside a tuple field".into());
                     }
                     env.kill_pending();
-                    let ty = self.terms(env, tin, &c.terms, false, cx)?;
+                    let (ty, _) = self.terms(env, tin, &c.terms, false, cx, fs)?;
                     env.kill_pending();
                     if ty.is_never() {
                         return Err("never-typed field".into());
@@ -516,41 +553,41 @@ impl V {
     // ---------------------------------------------------------------------------------------------
 
     /// returns (type, variables pending on the chain's success)
-    fn chain(&self, env: &mut Env, tin: &Ty, c: &Chain, tail: bool, cx: &Cx) -> R<(Ty, Vec<String>)> {
+    fn chain(&self, env: &mut Env, tin: &Ty, c: &Chain, tail: bool, cx: &Cx, fs: (bool, bool)) -> R<(Ty, Vec<String>, (bool, bool))> {
         // f = #T { … }
         if let (Some(Pat::Bind(name)), [Term::Fn { param, body }]) = (&c.pat, c.terms.as_slice()) {
             let (ty, rec) = self.function(env, param, body)?;
-            if let Some(old) = env.lookup(name) {
-                if old.ty != ty || ty.has_union() {
-                    return Err(format!("rebinding of visible name {name} at another or a union type (F28 candidate)"));
-                }
-            }
             env.bind(name, ty, St::Definite);
             env.vars.last_mut().unwrap().rec = rec;
-            return Ok((Ty::ok(), vec![]));
+            return Ok((Ty::ok(), vec![], (true, false)));
         }
-        let ty = self.terms(env, tin, &c.terms, tail && c.pat.is_none(), cx)?;
+        let (ty, fs_out) = self.terms(env, tin, &c.terms, tail && c.pat.is_none(), cx, fs)?;
         match &c.pat {
             Some(p) => {
                 if ty.is_never() {
                     return Err("binding a tail call".into());
                 }
+                if fs_out.0 && fs_out.1 {
+                    return Err("a match verdict that carries provenance is consumed by the binding pattern (open finding: verdict provenance)".into());
+                }
                 env.kill_pending();
                 let (vty, refutable) = self.check_pat(env, p, &ty, true)?;
-                Ok((vty, if refutable { env.pending() } else { vec![] }))
+                Ok((vty, if refutable { env.pending() } else { vec![] }, (true, fs_out.1)))
             }
             None => {
                 if matches!(c.terms.last(), Some(Term::Match(_))) {
-                    Ok((ty, env.pending()))
+                    Ok((ty, env.pending(), fs_out))
                 } else {
                     env.kill_pending();
-                    Ok((ty, vec![]))
+                    Ok((ty, vec![], fs_out))
                 }
             }
         }
     }
 
     fn seq(&self, env: &mut Env, tin: &Ty, cs: &[Chain], tail: bool, cx: &Cx) -> R<(Ty, Vec<String>)> {
+        // a sequence starts from the block parameter (provenance known), not from a verdict
+        let mut fs = (false, true);
         if cs.is_empty() {
             return Err("empty sequence".into());
         }
@@ -560,7 +597,8 @@ impl V {
         let mut pending = vec![];
         for (i, c) in cs.iter().enumerate() {
             let is_last = i + 1 == cs.len();
-            let (ty, pend) = self.chain(env, &input, c, tail && is_last, cx)?;
+            let (ty, pend, fs_out) = self.chain(env, &input, c, tail && is_last, cx, fs)?;
+            fs = fs_out;
             last = if may_nil { ty.with_nil() } else { ty.clone() };
             pending = pend;
             if !is_last {
@@ -595,6 +633,9 @@ impl V {
             let c = if i == 0 { cx_first } else { cx };
             let mut benv = Env { vars: env.vars.clone() };
             benv.kill_pending();
+            if cond_match_count(&b.cond) >= 2 && !cond_has_disabler(&b.cond) {
+                return Err("several matches in one condition without anything that disables complement narrowing (F24 residual)".into());
+            }
             let (cty, pending) = self.seq(&mut benv, tin, &b.cond, tail && b.cons.is_none() && is_last, c)?;
             if cty.is_nil() {
                 if b.cons.is_some() {
@@ -666,6 +707,29 @@ impl V {
     }
 }
 
+fn cond_match_count(cond: &[Chain]) -> usize {
+    cond.iter().map(|c| c.pat.is_some() as usize + c.terms.iter().filter(|t| matches!(t, Term::Match(_))).count()).sum()
+}
+
+fn pat_is_value_test(p: &Pat) -> bool {
+    matches!(p, Pat::Lit(_) | Pat::Str(_) | Pat::Pin(_))
+}
+
+/// something directly in the condition that makes the compiler give up complement narrowing for the
+/// branch: a builtin call, a (non-redundant) block, a tail call, a literal / pin test
+fn cond_has_disabler(cond: &[Chain]) -> bool {
+    cond.iter().any(|c| {
+        c.pat.as_ref().map(pat_is_value_test).unwrap_or(false)
+            || c.terms.iter().any(|t| match t {
+                Term::Access(Src::Builtin(_), _) => true,
+                Term::Block(e) => e.branches.len() > 1 || e.branches.iter().any(|b| b.cons.is_some()),
+                Term::Tail(_) | Term::TailRipple => true,
+                Term::Match(p) => pat_is_value_test(p),
+                _ => false,
+            })
+    })
+}
+
 fn is_observe_step(c: &Chain) -> Option<Vec<String>> {
     if c.pat.is_some() || c.terms.len() != 1 {
         return None;
@@ -692,7 +756,7 @@ pub fn validate(p: &Program) -> R<()> {
     if p.prints_ambiguously() {
         return Err("prints ambiguously".into());
     }
-    let v = V;
+    let v = V { flow: std::cell::Cell::new((false, true)) };
     let cx = Cx { param: None, rec: false };
     let mut env = Env::default();
     let n = p.steps.len();
